@@ -1,3 +1,4 @@
+import Mdsort.Proofs.GenBridge
 import Mdsort.Proofs.Eval
 import Mdsort.Proofs.EvalAtt
 import Mdsort.Proofs.EvalAttBridge
@@ -833,13 +834,85 @@ example : (Proofs.selectBlocks (exPEnv true) exConf).map (·.paths) =
 `processMessage` is `message_parse`, `expr_eval`, `matches_interpolate`, `matches_inspect` /
 `matches_exec`, `message_free` of the loop in `main`.  `runOracle orcl` runs it against ARBITRARY call
 results, so the statements hold for every behaviour of the file system, every fault and every
-interleaving with other processes. -/
+interleaving with other processes.
+
+Evaluation is part of the run: `expr_eval` asks the operating system for `command` conditions (util.c
+`exec(argv, -1)`: `open("/dev/null")`, `fork`, `waitpid`, `close`), `isdirectory` (`stat`) and the file-time
+`date` conditions (`stat` of the message's path) - `Model.evalP` (Model/EvalP.lean).  `Proofs.Own.runO orcl p j`
+is `runOracle` started at call index `j` (value, calls, next index). -/
+
+/-- **Which calls evaluation issues** (`C03_evaluation_calls`).  For every rule tree, message and environment:
+(1) every call of `evalP` is `open("/dev/null")`, `fork`, `waitpid`, `close` - only if the tree has a `command`
+condition - or `stat` - only if it has an `isdirectory` or file-time `date` condition (`Proofs.EvalCallOf`); none is
+mutating;
+(2) **replay**: whatever the calls return, the run of `evalP` is the run of asking, in order, exactly the questions of
+the pure evaluation `evalR` on the answers the world gave (`Ask.answers`), every question of that evaluation was
+answered, and the value of `evalP` is that evaluation's value;
+(3) a tree with none of the three conditions issues no call: `evalP` is `Model.eval`. -/
+theorem C03_evaluation_calls (env : Env) (e : Expr) (m : Msg) (fl : MFlags) :
+    Proofs.World.Calls (Proofs.EvalCallOf e) (evalP env e m fl) ∧
+    (∀ c, Proofs.EvalCallOf e c → c.mutating = false) ∧
+    (∀ (orcl : Nat → Call → Res) (i : Nat),
+      let as := (evalTop env e m fl).answers orcl i
+      (Proofs.Own.runO orcl (evalP env e m fl) i).1 = (evalR env e m fl as).1 ∧
+      (evalR env e m fl as).2.length = as.length ∧
+      Proofs.Own.runO orcl (askAll (evalR env e m fl as).2) i =
+        (as, (Proofs.Own.runO orcl (evalP env e m fl) i).2.1, (Proofs.Own.runO orcl (evalP env e m fl) i).2.2)) ∧
+    (Proofs.asksFree e = true →
+      evalP (Proofs.noSys env) e m fl = .ret (eval env m e 0 m { ml := [], flags := fl })) :=
+  ⟨Proofs.evalP_calls_of env e m fl, fun _ h => h.evalCall.quiet, fun orcl i => Proofs.evalP_replay env e m fl orcl i,
+    fun h => Proofs.evalP_asksFree env e h m fl⟩
+
+/-- Non-vacuity of (2): `match command "t" move "/d"` against results that let every call succeed with status 0 asks
+one question, `command ["t"]`, gets the answer "status 0", and matches; the calls are those of `exec(argv, -1)`. -/
+example :
+    let e : Expr := .mtch 1 (.command 1 [[116]]) (.move 1 [47, 100])
+    let env := Proofs.msgEnv Proofs.examplePEnv Proofs.exampleOracles [47, 109, 47, 110, 101, 119, 47, 49]
+    let m := parseMessage [83, 117, 98, 106, 101, 99, 116, 58, 32, 120, 10, 10, 98, 10]
+    (evalTop env e m MFlags.empty).answers (fun _ _ => .ok 0) 0 = [.status 0] ∧
+    (evalR env e m MFlags.empty [.status 0]).2 = [.command [[116]]] ∧
+    (evalR env e m MFlags.empty [.status 0]).1.1 = .match ∧
+    ((Proofs.Own.runO (fun _ _ => .ok 0) (evalP env e m MFlags.empty) 0).2.1.map (·.1)) =
+      [.openPath (ofString "/dev/null"), .fork, .waitpid, .close 0] := by
+  simp only [evalP, evalR, evalTop, evalT, eval]
+  decide +kernel
+
+/-- **Evaluation inside a run is `Model.eval`** whenever the answers the world gave to equal questions read the same
+(`Proofs.Consistent`; in particular whenever no question is asked twice): the value of `evalP` is `eval` with the pure
+oracles these answers define (`Proofs.envOf`) - so `C03_eval_refines_spec_att`, `C10_header_cond`, `C11_*`,
+`C12_*`, `C15_*` (all stated for arbitrary oracles) hold for the evaluation of every message in every run. -/
+theorem C03_world_eval_is_eval (env : Env) (e : Expr) (m : Msg) (fl : MFlags)
+    (orcl : Nat → Call → Res) (i : Nat)
+    (hc : Proofs.Consistent (evalR (Proofs.noSys env) e m fl ((evalTop (Proofs.noSys env) e m fl).answers orcl i)).2
+      ((evalTop (Proofs.noSys env) e m fl).answers orcl i)) :
+    (Proofs.Own.runO orcl (evalP (Proofs.noSys env) e m fl) i).1 =
+      eval (Proofs.envOf env (evalR (Proofs.noSys env) e m fl ((evalTop (Proofs.noSys env) e m fl).answers orcl i)).2
+        ((evalTop (Proofs.noSys env) e m fl).answers orcl i)) m e 0 m { ml := [], flags := fl } :=
+  Proofs.evalP_eq_eval env e m fl orcl i hc
+
+/-- Non-vacuity: a single question is always consistent. -/
+example (q : Req) (a : SysAns) : Proofs.Consistent [q] [a] := by
+  intro j k q1 q2 a1 a2 h1 h2 h3 h4 _
+  have hj : j = 0 := by
+    rcases j with _ | j
+    · rfl
+    · simp at h1
+  have hk : k = 0 := by
+    rcases k with _ | k
+    · rfl
+    · simp at h2
+  subst hj hk
+  simp only [List.getElem?_cons_zero, Option.some.injEq] at h1 h2 h3 h4
+  subst h1 h2 h3 h4
+  rfl
 
 /-- **No match, no effect.**  For every environment, evaluation oracles, rule tree, maildir, message
-name, loop state and every oracle of call results: if evaluating the rules on the message says *no
-match* or *error*, or says *match* and the interpolation of the actions' strings fails, then
+name, loop state and every oracle of call results: if IN THIS RUN evaluating the rules on the message says *no
+match* or *error* (`ev` = the value of `evalP` on the results `orcl` gives from the call after the parse phase on), or
+says *match* and the interpolation of the actions' strings fails, then
 `processMessage` issues only the `openat(O_RDONLY)`, `read` and `close` calls of parsing and freeing
-the message (no mutating call, no `fork`): its trace is the trace of the parse phase followed by
+the message and the calls of evaluation (`Proofs.ParseEvalCall`; no mutating call; a `fork` only for a `command`
+condition): its trace is the trace of the parse phase, then the calls of evaluation, then
 `close` calls only; the maildir is returned as it was; and the loop state is unchanged (`files`,
 `reject`, `log`) except that `error` is set exactly when the parse failed or the evaluation result
 is not *no match*. -/
@@ -848,6 +921,30 @@ theorem C03_no_match_no_effect (env : PEnv) (orc : EvalOracles) (expr : Expr) (m
     (hd : md.dirH = some d) (hf : st.files.get md.path name = some content)
     (hp : pathjoin PATH_MAX md.path name = some p) (hn : strlcpyFits NAME_MAX1 name = some n)
     (hmf : flagsParse n = some mf)
+    (orcl : Nat → Call → Res) (ev : Tri × St)
+    (hev : (Proofs.Own.runO orcl (evalP (Proofs.msgEnv env orc p) expr (parseMessage content) mf)
+      (Proofs.Own.runO orcl (messageParseP d md.path name content) 0).2.2).1 = ev)
+    (hno : ev.1 = .nomatch ∨ ev.1 = .error ∨
+      (ev.1 = .match ∧ (matchesInterpolate (Proofs.msgEnv env orc p) ev.2.ml
+          (partMsg (parseMessage content) ((getAttachments (parseMessage content)).getD []))).isNone = true)) :
+    (∀ x ∈ (runOracle orcl (processMessage env orc expr md name st) 0 []).2,
+      Proofs.ParseEvalCall d expr x.1 ∧ x.1.mutating = false ∧ (x.1 = .fork → Proofs.hasCommand expr = true)) ∧
+    (∃ E L, (runOracle orcl (processMessage env orc expr md name st) 0 []).2 =
+        (runOracle orcl (messageParseP d md.path name content) 0 []).2 ++ E ++ L ∧
+        (∀ x ∈ E, Proofs.EvalCallOf expr x.1) ∧ ∀ x ∈ L, ∃ fd, x.1 = .close fd) ∧
+    (runOracle orcl (processMessage env orc expr md name st) 0 []).1 =
+      (if (runOracle orcl (messageParseP d md.path name content) 0 []).1.isNone || ev.1 != .nomatch
+        then { st with error := true } else st, md) := by
+  obtain ⟨h1, h2, h3⟩ := Proofs.processMessage_noMatch_run env orc expr md name st d content p n mf hd hf hp hn hmf orcl ev hev hno
+  exact ⟨fun x hx => ⟨(h1 x hx).1, (h1 x hx).2, fun hfk => by have := (h1 x hx).1; rw [hfk] at this; exact this.fork⟩, h2, h3⟩
+
+/-- ... and for a rule tree without `command`, `isdirectory` and file-time `date` conditions (`Proofs.asksFree`) this is
+the statement in terms of the pure evaluator, with the parse calls only and no `fork`. -/
+theorem C03_no_match_no_effect_pure (env : PEnv) (orc : EvalOracles) (expr : Expr) (md : Maildir) (name : Bytes)
+    (st : MainSt) (d : Handle) (content p n : Bytes) (mf : MFlags)
+    (hd : md.dirH = some d) (hf : st.files.get md.path name = some content)
+    (hp : pathjoin PATH_MAX md.path name = some p) (hn : strlcpyFits NAME_MAX1 name = some n)
+    (hmf : flagsParse n = some mf) (hfree : Proofs.asksFree expr = true)
     (hno :
       (eval (Proofs.msgEnv env orc p) (parseMessage content) expr 0 (parseMessage content) { ml := [], flags := mf }).1 = .nomatch ∨
       (eval (Proofs.msgEnv env orc p) (parseMessage content) expr 0 (parseMessage content) { ml := [], flags := mf }).1 = .error ∨
@@ -865,25 +962,29 @@ theorem C03_no_match_no_effect (env : PEnv) (orc : EvalOracles) (expr : Expr) (m
       (if (runOracle orcl (messageParseP d md.path name content) 0 []).1.isNone ||
           (eval (Proofs.msgEnv env orc p) (parseMessage content) expr 0 (parseMessage content) { ml := [], flags := mf }).1 != .nomatch
         then { st with error := true } else st, md) :=
-  Proofs.processMessage_noMatch_run env orc expr md name st d content p n mf hd hf hp hn hmf hno orcl
+  Proofs.processMessage_noMatch_run_pure env orc expr md name st d content p n mf hd hf hp hn hmf hfree hno orcl
 
-/-- The same for every message for which the rules do not produce an action list
-(`Proofs.verdict`: no match, evaluation error, interpolation failure, or a name `message_parse`
-rejects - path too long, name too long, invalid flag suffix), without assumptions on the name. -/
+/-- The same for every message for which the rules IN THIS RUN do not produce an action list
+(`Proofs.verdictAt … orcl j`, the verdict with the results `orcl` gives to the calls of evaluation from index `j` on: no
+match, evaluation error, interpolation failure, or a name `message_parse` rejects - path too long, name too long, invalid
+flag suffix), without assumptions on the name.  For a rule tree that asks nothing `verdictAt` is the pure
+`Proofs.verdict` (`Proofs.verdictAt_asksFree`). -/
 theorem C03_no_action_no_effect (env : PEnv) (orc : EvalOracles) (expr : Expr) (md : Maildir) (name : Bytes)
     (st : MainSt) (d : Handle) (content : Bytes)
     (hd : md.dirH = some d) (hf : st.files.get md.path name = some content)
-    (hv : (Proofs.verdict env orc expr md.path name content).acts = false)
-    (orcl : Nat → Call → Res) :
+    (orcl : Nat → Call → Res)
+    (hv : (Proofs.verdictAt env orc expr md.path name content orcl
+      (Proofs.Own.runO orcl (messageParseP d md.path name content) 0).2.2).acts = false) :
     (∀ x ∈ (runOracle orcl (processMessage env orc expr md name st) 0 []).2,
-      ((∃ nm, x.1 = .openRd d nm) ∨ (∃ fd, x.1 = .read fd) ∨ ∃ fd, x.1 = .close fd) ∧
-        x.1.mutating = false ∧ x.1 ≠ .fork) ∧
-    (∃ L, (runOracle orcl (processMessage env orc expr md name st) 0 []).2 =
-        (runOracle orcl (messageParseP d md.path name content) 0 []).2 ++ L ∧ ∀ x ∈ L, ∃ fd, x.1 = .close fd) ∧
+      Proofs.ParseEvalCall d expr x.1 ∧ x.1.mutating = false) ∧
+    (∃ E L, (runOracle orcl (processMessage env orc expr md name st) 0 []).2 =
+        (runOracle orcl (messageParseP d md.path name content) 0 []).2 ++ E ++ L ∧
+        (∀ x ∈ E, Proofs.EvalCallOf expr x.1) ∧ ∀ x ∈ L, Proofs.IsClose x.1) ∧
     (runOracle orcl (processMessage env orc expr md name st) 0 []).1 =
       (if (runOracle orcl (messageParseP d md.path name content) 0 []).1.isNone ||
-          (Proofs.verdict env orc expr md.path name content).isErr then { st with error := true } else st, md) :=
-  Proofs.processMessage_noAct_run env orc expr md name st d content hd hf hv orcl
+          (Proofs.verdictAt env orc expr md.path name content orcl
+            (Proofs.Own.runO orcl (messageParseP d md.path name content) 0).2.2).isErr then { st with error := true } else st, md) :=
+  Proofs.processMessage_noAct_run env orc expr md name st d content hd hf orcl hv
 
 /-- A maildir that is not open, or a name the model has no content for: no call at all; the
 second is reported as an error.  (Audit au1: a statement about the MODEL's bookkeeping, not about mdsort - the registry
@@ -898,8 +999,9 @@ theorem C03_unknown_message_no_call (env : PEnv) (orc : EvalOracles) (expr : Exp
   Proofs.processMessage_degenerate_run env orc expr md name st orcl i tr
 
 /-! Non-vacuity: the message `Subject: x\n\nb\n` named `1` in `/m/new`, no regex ever matches.
-`match header "X" /1/ move "/d"` evaluates to *no match*; `match command "t" move "/d"` to *error*
-(the command oracle of `processMessage` reports failure); `match all move "\1"` matches and its
+`match header "X" /1/ move "/d"` evaluates to *no match*; `match command "t" move "/d"` to *error* with the pure
+evaluator whose command oracle reports failure (in a run: when `fork` fails, see the example after
+`C03_evaluation_calls` for the run in which it succeeds); `match all move "\1"` matches and its
 interpolation fails (see `C12_error_no_effect`). -/
 example :
     pathjoin PATH_MAX [47, 109, 47, 110, 101, 119] [49] = some [47, 109, 47, 110, 101, 119, 47, 49] ∧
